@@ -221,6 +221,23 @@ type fact struct { // a.base + a.c  <  b.base + b.c   (strict) or <=
 // factsAt collects relational facts known at block blk.
 func factsAt(blk *ssa.BasicBlock) []fact {
 	var out []fact
+	// library contracts: the size returned by utf8.DecodeRuneInString(s) / DecodeRune(b) is within [0, len]
+	core.EachInstr(blk.Parent(), func(i ssa.Instruction) {
+		ex, ok := i.(*ssa.Extract)
+		if !ok || ex.Index != 1 {
+			return
+		}
+		c, ok := ex.Tuple.(*ssa.Call)
+		if !ok {
+			return
+		}
+		g := core.StaticCallee(c)
+		if g == nil || (core.QualName(g) != "utf8.DecodeRuneInString" && core.QualName(g) != "utf8.DecodeRune") {
+			return
+		}
+		v := norm(ex, 0)
+		out = append(out, fact{lin{"", 0, true}, v, false}, fact{v, lin{"len:" + valID(c.Call.Args[0]), 0, true}, false})
+	})
 	for _, prm := range blk.Parent().Params {
 		if b, ok := prm.Type().Underlying().(*types.Basic); ok && b.Info()&types.IsInteger != 0 && paramNonNeg(prm) {
 			out = append(out, fact{lin{"", 0, true}, norm(prm, 0), false})
